@@ -107,6 +107,20 @@ def retry_wait_shape(eng):
                 to = (o[0].targets[0] if isinstance(o[0], ast.Assign) else o[0].target)
                 if dotted(tb) == dotted(to):
                     wt, lim = dotted(tb), lim_
+        # wait = <interval> if <budget > interval> else <budget>   (conditional expression, the test possibly held in a local)
+        if isinstance(n, (ast.Assign, ast.AnnAssign)) and isinstance(getattr(n, "value", None), ast.IfExp):
+            from sa.analyses.buffers import through_local
+            from sa.norm import cmp_canon
+            ie = n.value
+            c = cmp_canon(retry, through_local(retry, ie.test))
+            a_, b_ = dotted(ie.body), dotted(ie.orelse)
+            if c is not None and a_ and b_ and budget in (a_, b_) and a_ != b_ and set(k for k in c[0] if k) == {a_, b_} and c[0].get("", 0) == 0:
+                other = a_ if b_ == budget else b_
+                # the canonical form says `<plus> - <minus> > / >= 0` when the test is true: the true arm must be the smaller one (<minus>)
+                minus = next(k for k, v in c[0].items() if k and v < 0)
+                if dotted(ie.body) == minus:
+                    tgt = n.targets[0] if isinstance(n, ast.Assign) else n.target
+                    wt, lim = dotted(tgt), other
         # wait = min(timeout, retry_interval)
         if isinstance(n, (ast.Assign, ast.AnnAssign)) and isinstance(getattr(n, "value", None), ast.Call) and isinstance(n.value.func, ast.Name) and n.value.func.id == "min" \
                 and budget in [dotted(a) for a in n.value.args] and len(n.value.args) == 2:
